@@ -71,7 +71,11 @@ func genDoc(rt *rapid.T, sb *strings.Builder, depth int) {
 	case 0:
 		sb.WriteString(rapid.SampledFrom([]string{"null", "true", "false"}).Draw(rt, "lit"))
 	case 1, 2:
-		sb.WriteString(rapid.SampledFrom(numPool).Draw(rt, "num"))
+		if rapid.IntRange(0, 7).Draw(rt, "numlong") == 0 {
+			sb.WriteString(LongIntLit(rt))
+		} else {
+			sb.WriteString(rapid.SampledFrom(numPool).Draw(rt, "num"))
+		}
 	case 3, 4, 5:
 		sb.WriteString(GenStringLit(rt))
 	case 6, 7:
@@ -280,11 +284,34 @@ func intLit(rt *rapid.T, bits int, signed bool) string {
 	case k == 8 && rapid.Bool().Draw(rt, "leadzero"):
 		// forms that are not JSON numbers but that strconv accepts (quoted ",string" values, map keys)
 		return rapid.SampledFrom([]string{"00", "01", "-01", "007", "-007", "+1", "0042", "000", "-00", "+0", "0127", "00000000000000000001"}).Draw(rt, "leadzero-lit")
+	case k == 8 && rapid.Bool().Draw(rt, "longint"):
+		return LongIntLit(rt)
 	case k == 8:
 		return rapid.SampledFrom([]string{"123456789012345678901234567890", "-123456789012345678901234567890", "99999999999999999999", "00", "01", "-01", "+1", "0x1", "1_0", "92233720368547758070", "92233720368547758080", "9223372036854775810", "-92233720368547758090", "-9223372036854775810", "18446744073709551620", "184467440737095516150", "184467440737095516160", "28446744073709551616"}).Draw(rt, "bigint")
 	default:
 		return strconv.FormatInt(rapid.Int64().Draw(rt, "anyint"), 10)
 	}
+}
+
+// LongIntLit composes an integer literal of 17..23 digits (mostly 19..21: around the limits of int64 and
+// uint64, and every 20-digit value above 2^64, not just the few next to it), sometimes negative.
+func LongIntLit(rt *rapid.T) string {
+	n := rapid.SampledFrom([]int{17, 18, 19, 19, 19, 20, 20, 20, 20, 20, 21, 21, 22, 23}).Draw(rt, "ndigits")
+	var sb strings.Builder
+	if rapid.IntRange(0, 3).Draw(rt, "lneg") == 0 {
+		sb.WriteByte('-')
+	}
+	sb.WriteByte(byte('1' + rapid.IntRange(0, 8).Draw(rt, "d0")))
+	rest := rapid.Uint64().Draw(rt, "ldigits")
+	carry := rapid.Uint64().Draw(rt, "ldigits2")
+	for i := 1; i < n; i++ {
+		if i == 12 {
+			rest = carry
+		}
+		sb.WriteByte(byte('0' + rest%10))
+		rest /= 10
+	}
+	return sb.String()
 }
 
 // floatLit composes a number literal: every digit count of the integer part and of the fraction around the
@@ -438,6 +465,15 @@ func genDocFor(rt *rapid.T, sb *strings.Builder, t reflect.Type, o DocOpts, dept
 	case "KText":
 		sb.WriteString(rapid.SampledFrom([]string{`"1/2"`, `"-128/127"`, `"1"`, `"a/b"`, `"200/1"`, `5`}).Draw(rt, "ktext"))
 		return
+	case "ByteUV":
+		sb.WriteString(rapid.SampledFrom([]string{`1`, `255`, `"ERR"`, `"x"`, `[1]`, `null`, `0`}).Draw(rt, "byteuv"))
+		return
+	case "ByteUP":
+		sb.WriteString(rapid.SampledFrom([]string{`5`, `"b7"`, `300`, `"ERR"`, `0`, `254`, `null`, `"12"`}).Draw(rt, "byteup"))
+		return
+	case "ByteUT":
+		sb.WriteString(rapid.SampledFrom([]string{`"t5"`, `"7"`, `5`, `"x"`, `"t253"`, `null`, `"t300"`, `""`}).Draw(rt, "byteut"))
+		return
 	}
 	switch t.Kind() {
 	case reflect.Bool:
@@ -471,7 +507,7 @@ func genDocFor(rt *rapid.T, sb *strings.Builder, t reflect.Type, o DocOpts, dept
 	case reflect.Ptr:
 		genDocFor(rt, sb, t.Elem(), o, depth+1)
 	case reflect.Slice:
-		if t.Elem().Kind() == reflect.Uint8 && t.Elem().PkgPath() == "" {
+		if t.Elem().Kind() == reflect.Uint8 && (t.Elem().PkgPath() == "" || rapid.IntRange(0, 2).Draw(rt, "namedb64") == 0) {
 			if rapid.Bool().Draw(rt, "genb64") {
 				sb.WriteString(b64Lit(rt))
 				return
